@@ -149,7 +149,7 @@ var reBoundedLine = regexp.MustCompile(`^BOUNDED-(FAIL|KNOWN|DONE) idx=(\d+)(.*)
 // buildBoundedSource generates the test file for the given contracts.
 func buildBoundedSource(cts []*Contract, findings []Finding) (string, []*BoundedOutcome) {
 	var b strings.Builder
-	b.WriteString("//go:build verif\n\npackage rtcp\n\nimport (\n\t\"fmt\"\n\t\"math/rand\"\n\t\"os\"\n\t\"strconv\"\n\t\"testing\"\n)\n\n")
+	b.WriteString("//go:build verif\n\npackage rtcp\n\nimport (\n\t\"fmt\"\n\t\"math/rand\"\n\t\"os\"\n\t\"runtime\"\n\t\"strconv\"\n\t\"testing\"\n)\n\nvar _ runtime.MemStats\n\n")
 	b.WriteString(`func govcEnvInt(name string, def int) int {
 	if s := os.Getenv(name); s != "" {
 		if v, err := strconv.Atoi(s); err == nil {
@@ -224,6 +224,13 @@ func govcReport(kind string, idx int, clause string, i int, desc string) {
 			ens = append(ens, cg{cl.Label, g, known})
 			o.Clauses = append(o.Clauses, cl.Label)
 		}
+		allocGo := ""
+		if ct.AllocBound != nil {
+			if g, ok := boundedClauseToGo(ct.AllocBound.Text, &olds); ok {
+				allocGo = g
+				o.Clauses = append(o.Clauses, "allocates (run-time bytes <= 64 x bound + 16 KiB)")
+			}
+		}
 		fmt.Fprintf(&b, "func govcBounded%d(seed int64, n int, only int) {\n\tcases, skipped := 0, 0\n\tfor i := 0; i < n; i++ {\n\t\tif only >= 0 && i != only {\n\t\t\tcontinue\n\t\t}\n", k)
 		b.WriteString("\t\trng := rand.New(rand.NewSource(seed*1000003 + int64(i)))\n")
 		// everything from the generator call on runs under recover: generators call library code too
@@ -261,6 +268,9 @@ func govcReport(kind string, idx int, clause string, i int, desc string) {
 		} else {
 			call = fn.Name() + "(" + strings.Join(params, ", ") + ")"
 		}
+		if allocGo != "" {
+			b.WriteString("\t\t\tvar govcM0, govcM1 runtime.MemStats\n\t\t\truntime.ReadMemStats(&govcM0)\n")
+		}
 		if len(ct.ResultNames) > 0 {
 			fmt.Fprintf(&b, "\t\t\t%s := %s\n", strings.Join(ct.ResultNames, ", "), call)
 			for _, r := range ct.ResultNames {
@@ -268,6 +278,11 @@ func govcReport(kind string, idx int, clause string, i int, desc string) {
 			}
 		} else {
 			fmt.Fprintf(&b, "\t\t\t%s\n", call)
+		}
+		if allocGo != "" {
+			// the ghost allocation counter counts payload bytes; the run-time's real figure (headers, growth policy,
+			// reflection temporaries) is allowed a factor 64 and 16 KiB on top — the check is against blow-up
+			fmt.Fprintf(&b, "\t\t\truntime.ReadMemStats(&govcM1)\n\t\t\tif int64(govcM1.TotalAlloc-govcM0.TotalAlloc) > 64*int64(%s)+16384 {\n\t\t\t\tgovcReport(\"FAIL\", %d, \"allocates\", i, desc+fmt.Sprintf(\" :: %%d bytes allocated\", govcM1.TotalAlloc-govcM0.TotalAlloc))\n\t\t\t}\n", allocGo, k)
 		}
 		for j, e := range ens {
 			fmt.Fprintf(&b, "\t\t\tif !(%s) {\n\t\t\t\tif govcKnown%d {\n\t\t\t\t\tgovcReport(\"KNOWN\", %d, %s, i, desc)\n\t\t\t\t} else {\n\t\t\t\t\tgovcReport(\"FAIL\", %d, %s, i, desc)\n\t\t\t\t}\n\t\t\t}\n",
